@@ -122,10 +122,15 @@ where
     root: Root<'static, R>,
 }
 
+// The root must be `Collect` to construct an arena, not only to collect it: an arena releases all
+// of its objects before it drops the root, so the destructor of the root must not be able to
+// follow `Gc` pointers. `Collect` types uphold that (`#[collect(no_drop)]` forbids a `Drop` impl,
+// anything else is an explicit `unsafe` promise); an arbitrary root type, such as a `std::cell::Ref`
+// guard borrowed from a `Gc<RefLock<T>>` or a type with a `Drop` impl reading its pointers, does not.
 impl<R> Arena<R>
 where
     R: for<'a> Rootable<'a>,
-    for<'a> Root<'a, R>: Sized,
+    for<'a> Root<'a, R>: Sized + Collect<'a>,
 {
     /// Create a new arena with the given garbage collector tuning parameters. You must provide a
     /// closure that accepts a `&Mutation<'gc>` and returns the appropriate root.
@@ -168,7 +173,7 @@ where
     ) -> Arena<R2>
     where
         R2: for<'a> Rootable<'a>,
-        for<'a> Root<'a, R2>: Sized,
+        for<'a> Root<'a, R2>: Sized + Collect<'a>,
     {
         self.context.root_barrier();
         let new_root: Root<'static, R2> = unsafe {
@@ -188,7 +193,7 @@ where
     ) -> Result<Arena<R2>, E>
     where
         R2: for<'a> Rootable<'a>,
-        for<'a> Root<'a, R2>: Sized,
+        for<'a> Root<'a, R2>: Sized + Collect<'a>,
     {
         self.context.root_barrier();
         let new_root: Root<'static, R2> = unsafe {
